@@ -34,6 +34,7 @@ type FindingSplit struct {
 	Clause string // clause label (or obligation-name glob) it partitions
 	When   *Expr
 	Src    string
+	Post   bool // evaluate in the return state instead of the entry state
 }
 
 type FuncContract struct {
@@ -305,15 +306,16 @@ func (cs *ContractSet) loadContractFile(path, pkgName string) error {
 			cur = nil
 		case "finding":
 			// finding <id> on <clause-label> when <expr>
-			m := regexp.MustCompile(`^(\S+)\s+on\s+(\S+)\s+when\s+(.*)$`).FindStringSubmatch(rest)
+			// `whenpost`: the witness predicate is evaluated in the state (and with the locals) at each return
+			m := regexp.MustCompile(`^(\S+)\s+on\s+(\S+)\s+(when|whenpost)\s+(.*)$`).FindStringSubmatch(rest)
 			if m == nil {
-				return fail("finding ID on CLAUSE when EXPR")
+				return fail("finding ID on CLAUSE when|whenpost EXPR")
 			}
-			e, err := parseSpecExpr(m[3])
+			e, err := parseSpecExpr(m[4])
 			if err != nil {
 				return fail("%v", err)
 			}
-			fs := FindingSplit{ID: m[1], Clause: m[2], When: e, Src: m[3]}
+			fs := FindingSplit{ID: m[1], Clause: m[2], When: e, Src: m[4], Post: m[3] == "whenpost"}
 			if curLemma != nil {
 				curLemma.Findings = append(curLemma.Findings, fs)
 			} else if cur != nil {
